@@ -1,6 +1,10 @@
 //go:build verif
 
 // Contracts for package store, checked by /verif/govc. Comments only.
+//
+// The file system is ghost state: $fsState[path] is 0 (no file), 1 (partial content) or 2 (a complete
+// encoding of the data object $fsData[path]); the contracts of os.CreateTemp, os.Rename, os.Open,
+// (*os.File).Close and the jsoniter encoder/decoder are assumptions (extern table of govc).
 
 package store
 
@@ -13,3 +17,26 @@ package store
 //@ func interface (github.com/Flowpack/prunner/store.DataStore).Load
 //@   ensures [loaded] res1 == nil ==> res0 != nil
 //@   modifies nothing
+
+//@ pure dataPath(j *JsonDataStore) string = pathJoin(j.path, "data.json")
+//@ pure published(j *JsonDataStore) bool = $fsState[dataPath(j)] == 0 || $fsState[dataPath(j)] == 2
+
+//@ func (*JsonDataStore).Save
+//@   requires [nonnil] j != nil && data != nil
+//@   requires [published] published(j)
+//@   step     [C09.published] published(j)
+//@   ensures  [C09.published] published(j)
+//@   ensures  [C09.durable] res == nil ==> $fsState[dataPath(j)] == 2 && $fsData[dataPath(j)] == addr(data)
+//@   ensures  [C09.keptOnError] res != nil ==> $fsState[dataPath(j)] == old($fsState[dataPath(j)]) && $fsData[dataPath(j)] == old($fsData[dataPath(j)])
+
+//@ func (*JsonDataStore).Load
+//@   requires [nonnil] j != nil
+//@   requires [published] published(j)
+//@   ensures  [C09.absent] old($fsState[dataPath(j)]) == 0 ==> res1 == nil && res0 != nil && len(res0.Jobs) == 0
+//@   ensures  [C09.load] old($fsState[dataPath(j)]) == 2 && res1 == nil ==> res0 != nil && $decodedFrom[res0] == old($fsData[dataPath(j)])
+//@   ensures  [C09.readonly] same("$fsState") && same("$fsData")
+
+// The codec configuration must not lose number precision (C10): ConfigFastest marshals floats with 6 digits.
+//@ globalinit json: jsoniter.ConfigDefault, jsoniter.ConfigCompatibleWithStandardLibrary
+
+//@ property C09: store.*/ensures[C09.*] store.*/step[C09.*] store.*/extern-pre[*]
